@@ -151,6 +151,9 @@ def execute(spec):
         w = sess.w
         if spec.get("residue"):
             w.k.cmd("residue %s" % spec["residue"])
+        if spec.get("host"):
+            # the tools installed on the client's host (harness/simk.c: host_profile)
+            w.k.cmd("hostprofile %d" % spec["host"])
         hs = sess.handshake(limit=spec.get("hs_limit_ms", 400000) * 1000)
         res["stats"]["handshake"] = hs
         t0 = w.now
